@@ -22,6 +22,11 @@
 //!   get                synchronous read (no state change; the observable carries the value)
 //!   bread              a stand-in `<Suspense/>` boundary (a child owner providing a `SuspenseContext`) reads the value
 //!                      synchronously (`get_untracked()` under that owner)
+//!   a 6th cfg field (plain kinds, `sig` only) gives the fetcher's reads as `<body>/<pre>/<post>`, each `-` or a
+//!        `.`-separated list of `R<i>` (read source i), `C<i>` (read source i only if source 0, as read earlier in
+//!        this run, was non-zero), `X` (read source 1 + flag % (k-1)): body = in the closure before the async block,
+//!        pre = in the async block before its first await, post = after the await of the harness's receiver.
+//!        The result is fetch_fn(values read, in order).  Default: `R0.R1../-/-`.
 //!   kinds res | res-arc | res-blocking = the real `leptos_server::Resource` / `ArcResource` (source fn = all sources,
 //!        `refetch` = `Resource::refetch()`); once | once-arc = `OnceResource` / `ArcOnceResource` (no `set`, `refetch`,
 //!        `mset`, `attach b`: no such API / nothing to write)
@@ -117,6 +122,110 @@ fn start_fetch(sh: &Sh, inputs: Vec<u32>) -> Fut {
             Err(_) => futures::future::pending().await,
         }
     })
+}
+
+/// one reactive read of a fetcher with dynamic dependencies
+#[derive(Clone, Copy, Debug)]
+enum Rd {
+    Src(usize),
+    IfFlag(usize),
+    Idx,
+}
+#[derive(Clone, Debug, Default)]
+struct Fx {
+    body: Vec<Rd>,
+    pre: Vec<Rd>,
+    post: Vec<Rd>,
+}
+fn parse_fx(k: usize, s: &str) -> Option<Fx> {
+    let parts: Vec<&str> = s.split('/').collect();
+    if parts.len() != 3 {
+        return None;
+    }
+    let list = |p: &str| -> Option<Vec<Rd>> {
+        if p == "-" {
+            return Some(vec![]);
+        }
+        p.split('.')
+            .map(|tok| {
+                if tok == "X" {
+                    return (k >= 2).then_some(Rd::Idx);
+                }
+                let i: usize = tok.get(1..)?.parse().ok()?;
+                if i >= k {
+                    return None;
+                }
+                match tok.as_bytes()[0] {
+                    b'R' => Some(Rd::Src(i)),
+                    b'C' => Some(Rd::IfFlag(i)),
+                    _ => None,
+                }
+            })
+            .collect()
+    };
+    Some(Fx { body: list(parts[0])?, pre: list(parts[1])?, post: list(parts[2])? })
+}
+/// what one run has read: (flag, values in order); `get` is the real (tracked) read or, for the oracle, a
+/// lookup in the current source values
+fn exec_rds(rds: &[Rd], k: usize, flag: &mut Option<u32>, vals: &mut Vec<u32>, get: &dyn Fn(usize) -> u32) {
+    for rd in rds {
+        let i = match *rd {
+            Rd::Src(i) => i,
+            Rd::IfFlag(i) => {
+                if flag.unwrap_or(0) == 0 {
+                    continue;
+                }
+                i
+            }
+            Rd::Idx => 1 + (flag.unwrap_or(0) as usize) % (k - 1),
+        };
+        let v = get(i);
+        if i == 0 {
+            *flag = Some(v);
+        }
+        vals.push(v);
+    }
+}
+/// the fetcher evaluated from scratch on given source values (the oracle's side)
+fn eval_fx(fx: &Fx, src: &[u32]) -> Vec<u32> {
+    let (mut flag, mut vals) = (None, vec![]);
+    for part in [&fx.body, &fx.pre, &fx.post] {
+        exec_rds(part, src.len(), &mut flag, &mut vals, &|i| src[i]);
+    }
+    vals
+}
+
+/// a fetcher whose reads depend on what it has read: some in the closure body, some in the async block before
+/// its first await, some after the await of the harness's receiver
+fn fetcher_fx(sh: Sh, srcs: Vec<ArcRwSignal<u32>>, fx: Fx) -> impl Fn() -> Fut + Send + Sync + 'static {
+    move || {
+        let k = srcs.len();
+        let (mut flag, mut vals) = (None, vec![]);
+        exec_rds(&fx.body, k, &mut flag, &mut vals, &|i| srcs[i].get());
+        let (tx, rx) = oneshot::channel::<u32>();
+        let f = {
+            let mut g = sh.lock().unwrap();
+            let born = g.clock;
+            g.fetches.push(Fetch { inputs: vals.clone(), tx: Some(tx), returned: false, born });
+            g.fetches.len() - 1
+        };
+        let (sh, srcs, fx) = (sh.clone(), srcs.clone(), fx.clone());
+        Box::pin(async move {
+            exec_rds(&fx.pre, k, &mut flag, &mut vals, &|i| srcs[i].get());
+            sh.lock().unwrap().fetches[f].inputs = vals.clone();
+            match rx.await {
+                Ok(_) => {
+                    exec_rds(&fx.post, k, &mut flag, &mut vals, &|i| srcs[i].get());
+                    let mut g = sh.lock().unwrap();
+                    g.fetches[f].inputs = vals.clone();
+                    g.fetches[f].returned = true;
+                    g.writers.push(W::Fetch(f));
+                    fetch_fn(&vals)
+                }
+                Err(_) => futures::future::pending().await,
+            }
+        })
+    }
 }
 
 fn fetcher(sh: Sh, srcs: Vec<ArcRwSignal<u32>>, via: Option<ArcMemo<Vec<u32>>>) -> impl Fn() -> Fut + Send + Sync + 'static {
@@ -352,6 +461,7 @@ struct Live {
     tags: BTreeSet<&'static str>,
     saw_stale: bool,
     boundary: Option<Boundary>,
+    fx: Option<Fx>,
     /// kind ('a' awaiter, 'r' reader spawned by a boundary read) of every task spawned after the set-up
     spawned: Vec<char>,
     /// op clock values: boundary reads, manual writes, the first poll of the derived's task
@@ -388,6 +498,7 @@ impl Live {
             tags: BTreeSet::new(),
             saw_stale: false,
             boundary: None,
+            fx: None,
             spawned: vec![],
             bread_at: vec![],
             mset_at: vec![],
@@ -417,7 +528,7 @@ impl Live {
         sched::reset();
     }
 
-    fn configure(&mut self, kind: Kind, srcs: Vec<u32>, init: Option<u32>, eff: EffKind, via_memo: bool) {
+    fn configure(&mut self, kind: Kind, srcs: Vec<u32>, init: Option<u32>, eff: EffKind, via_memo: bool, fx: Option<Fx>) {
         let owner = Owner::new();
         owner.set();
         self.boundary = Some(Boundary::new(&owner));
@@ -443,9 +554,16 @@ impl Live {
         } else if kind.is_local() {
             self.tags.insert("local-resource");
             Dv::new_local(kind, fetcher(self.sh.clone(), self.srcs.clone(), None))
+        } else if let Some(fx) = fx.clone() {
+            self.tags.insert("dynamic-reads");
+            if !fx.post.is_empty() {
+                self.tags.insert("reads-after-await");
+            }
+            Dv::new(kind, init, fetcher_fx(self.sh.clone(), self.srcs.clone(), fx))
         } else {
             Dv::new(kind, init, fetcher(self.sh.clone(), self.srcs.clone(), via))
         };
+        self.fx = fx;
         if eff != EffKind::None {
             let memo = {
                 let srcs = self.srcs.clone();
@@ -579,7 +697,10 @@ impl Live {
         let mset_during = self.mset_at.iter().any(|m| t_cur.map(|c| *m > c).unwrap_or(true));
         let expected = match g.writers.last() {
             Some(W::Manual(v)) => Some(*v),
-            _ => Some(fetch_fn(&self.cur_src)),
+            _ => Some(fetch_fn(&match &self.fx {
+                Some(fx) => eval_fx(fx, &self.cur_src),
+                None => self.cur_src.clone(),
+            })),
         };
         let verdict = if !allowed.contains(&val) {
             "fail fabricated"
@@ -623,7 +744,7 @@ impl Live {
         let num = |s: &str| s.parse::<u32>().ok();
         let idx = |s: &str| s.parse::<usize>().ok();
         const BAD: &str = "bad-op";
-        if let ["cfg", kind, srcs, init, eff] | ["cfg", kind, srcs, init, eff, _] = w.as_slice() {
+        if let ["cfg", kind, srcs, init, eff] | ["cfg", kind, srcs, init, eff, _] | ["cfg", kind, srcs, init, eff, _, _] = w.as_slice() {
             let via_memo = match w.get(5) {
                 None | Some(&"sig") => false,
                 Some(&"memo") => true,
@@ -646,7 +767,10 @@ impl Live {
                 "local-arc" => Kind::LocalArc,
                 _ => return BAD.into(),
             };
-            if (kind.is_res() || kind.is_once() || kind.is_local()) && (w.len() == 6 || *init != "-") {
+            if (kind.is_res() || kind.is_once() || kind.is_local()) && (w.len() >= 6 || *init != "-") {
+                return BAD.into();
+            }
+            if w.len() == 7 && via_memo {
                 return BAD.into();
             }
             let vs: Option<Vec<u32>> = srcs.split(',').map(num).collect();
@@ -669,7 +793,14 @@ impl Live {
                 "md" => EffKind::MD,
                 _ => return BAD.into(),
             };
-            self.configure(kind, vs, init, eff, via_memo);
+            let fx = match w.get(6) {
+                None => None,
+                Some(s) => match parse_fx(vs.len(), s) {
+                    Some(fx) => Some(fx),
+                    None => return BAD.into(),
+                },
+            };
+            self.configure(kind, vs, init, eff, via_memo, fx);
             return w.join(" ");
         }
         if self.dv.is_none() {
@@ -1016,6 +1147,80 @@ fn gen_suspense(g: &mut Gen, thorough: bool) {
     }
 }
 
+/// fetchers with conditional / indexed reads placed in the closure body, before and after the first await, so
+/// that an input is first read in a second or later run: every write sequence that flips the flag / index and
+/// then writes the newly read input, interleaved with completions and polls
+fn gen_dynamic(g: &mut Gen, thorough: bool) {
+    // (sources, fetcher): flag = source 0
+    let progs: Vec<(&str, &str)> = vec![
+        ("0,5", "R0.C1/-/-"),
+        ("0,5", "-/R0.C1/-"),
+        ("0,5", "R0/-/C1"),
+        ("0,5", "-/R0/C1"),
+        ("0,5", "-/-/R0.C1"),
+        ("0,5", "R0/C1/-"),
+        ("1,5", "R0/-/C1"),
+        ("0,5,6", "R0.X/-/-"),
+        ("0,5,6", "-/R0.X/-"),
+        ("0,5,6", "R0/-/X"),
+        ("0,5,6", "-/-/R0.X"),
+        ("0,5,6", "R0/X/C2"),
+    ];
+    let mut cfgs: Vec<String> = vec![];
+    for (i, (srcs, fx)) in progs.iter().enumerate() {
+        cfgs.push(format!("cfg {} {} - {} sig {}", KINDS[i % 4], srcs, ["none", "d"][i % 2], fx));
+    }
+    // first load done, then: flip the flag, write the extra inputs, complete, poll
+    let alphabet = ["set 0 1", "set 0 2", "set 0 0", "set 1 7", "set 2 8", "complete last", "idle"];
+    let n = alphabet.len();
+    let len = if thorough { 5 } else { 4 };
+    for cfg in &cfgs {
+        for pre in ["", "idle;complete last;idle"] {
+            for code in 0..n.pow(len as u32) {
+                let mut c = code;
+                let mut l: Vec<String> = std::iter::once(cfg.clone())
+                    .chain(pre.split(';').filter(|p| !p.is_empty()).map(|s| s.to_string()))
+                    .collect();
+                let mut ok = true;
+                for _ in 0..len {
+                    let a = alphabet[c % n];
+                    c /= n;
+                    if a == "set 2 8" && !cfg.contains("0,5,6") {
+                        ok = false;
+                        break;
+                    }
+                    l.push(a.to_string());
+                }
+                if !ok {
+                    continue;
+                }
+                // the new input is written once more after everything has settled
+                settle(&mut l, 2);
+                l.push("set 1 9".into());
+                settle(&mut l, 2);
+                g.case("dy-", &l);
+            }
+        }
+    }
+    // with explicit polls of the derived's task and an awaiter / the boundary in the game
+    let alphabet2 = ["set 0 1", "set 0 0", "set 1 7", "complete last", "poll 0", "poll 1", "attach", "bread"];
+    for cfg in cfgs.iter().take(7) {
+        let n = alphabet2.len();
+        for code in 0..n.pow(3) {
+            let mut c = code;
+            let mut l = vec![cfg.clone(), "idle".into(), "complete last".into(), "idle".into()];
+            for _ in 0..3 {
+                l.push(alphabet2[c % n].to_string());
+                c /= n;
+            }
+            settle(&mut l, 2);
+            l.push("set 1 9".into());
+            settle(&mut l, 2);
+            g.case("dz-", &l);
+        }
+    }
+}
+
 /// the real `leptos_server` resources: refetch, source writes and their interleavings with executor progress
 fn gen_resources(g: &mut Gen, thorough: bool) {
     let mut cfgs: Vec<String> = vec![];
@@ -1098,6 +1303,14 @@ fn gen_random(g: &mut Gen, rng: &mut Rng) {
     let once = flavour == 9;
     let local = flavour >= 10;
     let mut l = vec![match flavour {
+        0..=5 if k == 2 && rng.chance(1, 3) => format!(
+            "cfg {} {} {} {} sig {}",
+            rng.pick(&KINDS),
+            srcs.join(","),
+            init,
+            eff,
+            rng.pick(&["R0.C1/-/-", "-/R0.C1/-", "R0/-/C1", "-/-/R0.C1", "R0/-/X", "-/R0.X/-", "R1/-/R0", "R0.R1/-/C1"])
+        ),
         0..=5 => format!("cfg {} {} {} {} {}", rng.pick(&KINDS), srcs.join(","), init, eff, via),
         6..=8 => format!("cfg {} {} - {}", rng.pick(&["res", "res-arc", "res-blocking"]), srcs.join(","), eff),
         9 => format!("cfg {} {} - {}", rng.pick(&["once", "once-arc"]), srcs.join(","), eff),
@@ -1149,6 +1362,7 @@ fn generate(seed: u64, n: usize, path: &str, tier: &str) -> std::io::Result<()> 
     gen_two_writes(&mut g);
     gen_suspense(&mut g, thorough);
     gen_resources(&mut g, thorough);
+    gen_dynamic(&mut g, thorough);
     if thorough {
         gen_exhaustive(&mut g, 4, &alphabet, &EFFS, "x4-");
         gen_exhaustive(&mut g, 5, &core, &EFFS, "y5-");
